@@ -439,3 +439,32 @@ func (m *ModuleSpec) EnabledTypes(pi int, gen string, globals map[string][]strin
 	sort.Strings(aliases)
 	return
 }
+
+// DocLinesOf returns the documentation lines (tag lines split off) the spec gave the type named by
+// "import/path.Type" - what Package.Doc must report for it.
+func (m *ModuleSpec) DocLinesOf(ref string) []string {
+	i := strings.LastIndex(ref, ".")
+	pi := m.PkgByPath(ref[:i])
+	if pi < 0 {
+		return nil
+	}
+	var find func(ds []*Decl) []string
+	find = func(ds []*Decl) []string {
+		for _, d := range ds {
+			if d.Kind == "grouped" {
+				if l := find(d.Group); l != nil {
+					return l
+				}
+			} else if d.Name == ref[i+1:] {
+				return append([]string{}, d.Doc...)
+			}
+		}
+		return nil
+	}
+	for _, f := range m.Pkgs[pi].Files {
+		if l := find(f.Decls); l != nil {
+			return l
+		}
+	}
+	return nil
+}
